@@ -11,13 +11,13 @@ import json, os, re, subprocess, sys, time
 
 BUDGET = {
     # id: (quick (seeds, cases), thorough (seeds, cases))
-    "C12": ((8, 8), (64, 32)),
-    "C13": ((8, 8), (64, 32)),
-    "C15": ((8, 8), (64, 32)),
+    "C12": ((16, 24), (64, 64)),
+    "C13": ((16, 24), (64, 64)),
+    "C15": ((16, 24), (64, 64)),
     "C05": ((2, 2), (32, 12)),
     "C19": ((2, 2), (32, 12)),
     "C04": ((2, 2), (32, 12)),
-    "C14": ((8, 8), (64, 32)),
+    "C14": ((16, 16), (64, 64)),
 }
 
 BAD = re.compile(r"error: Undefined Behavior|Data race detected|error: memory leaked|error: the evaluated program|E2-VIOLATION|error: unsupported operation|panicked at")
